@@ -106,7 +106,7 @@ def text_of(w, g, k=0):
 
 class Cfg:
     def __init__(self, name, writers, reads, presize=None, reader="process", sequential=False, family=None,
-                 after_flush=(), required=(), parent_ids=(), after_flush_by="parent", open_before_fork=False):
+                 after_flush=(), required=(), parent_ids=(), after_flush_by="parent", open_before_fork=False, long_reader=False):
         self.name = name
         self.writers = [list(w) for w in writers]     # per writer: ids to store, in order
         self.reads = list(reads)                      # ids the reader asks for, in order
@@ -117,6 +117,7 @@ class Cfg:
         self.after_flush = list(after_flush)          # ids the parent stores after close()+flush()
         self.parent_ids = list(parent_ids)            # ids the parent itself stores first (then closes)
         self.after_flush_by = after_flush_by          # parent | process: who stores after the flush (the parent then only reads)
+        self.long_reader = long_reader                # a reader process forked before flush() that is still used afterwards
         self.open_before_fork = open_before_fork      # the parent opens the storage for writing, THEN the writers are forked
         self.required = list(required)
         self.workers = len(self.writers)
@@ -124,7 +125,8 @@ class Cfg:
     def describe(self):
         return {"name": self.name, "writers": self.writers, "reads": self.reads, "presize": self.presize,
                 "reader": self.reader, "sequential": self.sequential, "after_flush": self.after_flush, "parent_ids": self.parent_ids,
-                "after_flush_by": self.after_flush_by, "open_before_fork": self.open_before_fork}
+                "after_flush_by": self.after_flush_by, "open_before_fork": self.open_before_fork,
+                "long_reader": self.long_reader}
 
 
 def make_driver(cfg):
@@ -185,6 +187,22 @@ def make_driver(cfg):
                 st.close()
             if cfg.open_before_fork:
                 st.open()       # all writers inherit this one open file (shared offset), like `with storage:` around a pool
+            lr = None
+            if cfg.long_reader:
+                ev_flushed = vmp.Event()
+
+                class LongReader(vmp.Process):
+                    def __init__(self, st):
+                        super().__init__()
+                        self.st = st
+
+                    def run(self):
+                        ev_flushed.wait()           # the parent has flushed and a new writer has stored a second round
+                        self.st.reader_only = True
+                        with self.st:
+                            out["long_reader"] = observe_all(self.st)
+                lr = LongReader(st)
+                lr.start()
             ws = [Writer(st, i, ids) for i, ids in enumerate(cfg.writers)]
             rd = Reader(st) if cfg.reader == "process" and cfg.reads else None
             if cfg.sequential:
@@ -237,6 +255,10 @@ def make_driver(cfg):
                 fl["after_stores"] = res
                 st.reader_only = False
                 st.close()
+                if lr is not None:
+                    ev_flushed.set()
+                    lr.join()
+                    fl["long_reader"] = out.get("long_reader")
                 st.flush()
                 fl["listdir2"] = sorted(os.listdir(d))
             out["flush"] = fl
@@ -363,6 +385,10 @@ def judge(cfg, r):
                     exp = {g: text_of("A" if cfg.after_flush_by == "process" else "P", g) for g in cfg.after_flush}
                     for item in check_obs(cfg, fl["after"], exp, "after flush + new stores"):
                         v.append(("C14", dict(item[1], kind="flush-not-reset"), item[2], {}))
+                    if fl.get("long_reader") is not None:
+                        for item in check_obs(cfg, fl["long_reader"], exp, "seen by a reader process forked before the flush, after "
+                                              "flush + new stores"):
+                            v.append(("C14", dict(item[1], kind="flush-not-reset", who="older-process"), item[2], {}))
                 if fl.get("listdir2"):
                     v.append(("C14", {"family": fam, "kind": "flush"}, "%s: second flush left %r" % (cfg.name, fl["listdir2"]), {}))
     return v
@@ -448,6 +474,10 @@ def plan_for(tier):
     plan.append((Cfg("Spar[P:0|[1]]", [[1]], [0, 1], sequential=True, parent_ids=[0], after_flush=[0]), 0, 0, None))
     plan.append((Cfg("Sround2[[0,1]|A:1,0]", [[0, 1]], [0, 1], sequential=True, after_flush=[1, 0], after_flush_by="process"), 0, 0, None))
     plan.append((Cfg("Sround2[[1],[0]|A:0,2]", [[1], [0]], [0, 1], sequential=True, after_flush=[0, 2], after_flush_by="process"), 0, 0, None))
+    plan.append((Cfg("Slong[[0,1]|flush|A:0,1|reader forked before]", [[0, 1]], [0], sequential=True, after_flush=[0, 1],
+                     after_flush_by="process", long_reader=True), 0, 0, None))
+    plan.append((Cfg("Slong[[2],[0]|flush|A:1|reader forked before]", [[2], [0]], [], sequential=True, after_flush=[1],
+                     after_flush_by="process", long_reader=True), 0, 0, None))
     plan.append((Cfg("Kshared[open before fork|w0:0,2|w1:1|R]", [[0, 2], [1]], [1, 0, 2], open_before_fork=True), b, 0, None))
     plan.append((Cfg("Sshared[open before fork|[1,0],[2]]", [[1, 0], [2]], [0, 1, 2], sequential=True, open_before_fork=True), 0, 0, None))
     plan.append((Cfg("Kround2[w0:0|w1:1|R|A:0,1]", [[0], [1]], [0, 1], after_flush=[0, 1], after_flush_by="process"), b, 0, None))
@@ -472,7 +502,7 @@ def replay(rec):
     c = rp["config"]
     cfg = Cfg(c["name"], c["writers"], c["reads"], c["presize"], c["reader"], c["sequential"], after_flush=c["after_flush"],
               parent_ids=c.get("parent_ids", ()), after_flush_by=c.get("after_flush_by", "parent"),
-              open_before_fork=c.get("open_before_fork", False))
+              open_before_fork=c.get("open_before_fork", False), long_reader=c.get("long_reader", False))
     from mc.par import pin_self
     pin_self()
     racy = {(tuple(a), b) for a, b in rp["racy"]}
